@@ -926,6 +926,12 @@ def Optimize(
     node = node.Visit(MergeTypeParameters())
     node = node.Visit(visitors.AdjustSelf())
   node = node.Visit(SimplifyContainers())
+  if deps:
+    # The passes after the first SimplifyUnionsWithSuperclasses can turn a
+    # union member into a plain class (e.g. `set[Any]` -> `set`) that a
+    # superclass in the same union absorbs; without this, only a second
+    # Optimize would do so.
+    node = node.Visit(SimplifyUnionsWithSuperclasses(hierarchy))
   if deps and can_do_lookup:
     node = visitors.LookupClasses(node, deps, ignore_late_types=True)
   return node
